@@ -6,6 +6,7 @@ From Coq Require Import List Bool ZArith Permutation.
 Import ListNotations.
 From Mos Require Import Gen.BuildFlow Gen.PassLoopConds Gen.ErrSpans model.Build model.PassLoopErr model.ErrorArms
   proofs.BuildProofs proofs.PassLoopErrProofs.
+From Mos Require model.Utf model.Nom Gen.ParserTables model.Parser spec.ParseErrors proofs.ParseErrProofs.
 
 (* For ALL projects (arbitrary parse / codegen / merge_segments / writer functions, any file system, any configuration):
    a build that ends with diagnostics has not created or modified any file; at most the target directory exists now. *)
@@ -85,6 +86,46 @@ Print Assumptions C04_instruction_errors_begin_at_mnemonic.
 Theorem C04_spans_in_file : forall k p len, parts_within len p -> within len (diag_span k p).
 Proof. exact spans_in_file. Qed.
 Print Assumptions C04_spans_in_file.
+
+(* ---- parse level, on dev-parse's parser model (model/Nom.v + model/Parser.v, the whole grammar; see props/C05.v) ----
+   For ALL texts: every Error token anywhere in the tree of a parsed file (top level or nested blocks) pushed the
+   diagnostic `unexpected '<its text>'` over exactly its span -- unless it was the one diagnostic that
+   ignore_next_error() suppresses behind an unterminated block comment, whose own diagnostic is then present. *)
+Theorem C04_error_token_reported : forall s toks ds l,
+  Parser.parse s = Parser.Parsed toks ds -> ParseErrors.occurs (Parser.TError l) toks ->
+  ParseErrors.reported ds (ParseErrors.err_obl l).
+Proof. exact ParseErrProofs.error_token_reported. Qed.
+Print Assumptions C04_error_token_reported.
+
+(* For ALL texts: every block of the tree whose closing brace is missing pushed `expected closing delimiter`
+   (a point diagnostic; by C04_expect_reported at the offset where the brace was expected). *)
+Theorem C04_unclosed_block_reported : forall s toks ds t b,
+  Parser.parse s = Parser.Parsed toks ds -> ParseErrors.occurs t toks -> In b (ParseErrors.blocks_of t) ->
+  ParseErrors.block_closed b = false -> ParseErrors.reported ds (ParseErrors.point_expect Nom.MClosing).
+Proof. exact ParseErrProofs.unclosed_block_reported. Qed.
+Print Assumptions C04_unclosed_block_reported.
+
+(* Every failed `expect` with a non-empty message consumes nothing and pushes its diagnostic at the current offset,
+   i.e. where the missing construct was expected (whatever state-growing parser it wraps). *)
+Theorem C04_expect_reported : forall (A : Type) (p : Nom.parser A) m st i st' r,
+  ParseErrProofs.quiet p -> m <> Nom.MEmpty -> ParseErrProofs.inv2 st ->
+  Nom.expect p m st i = (st', Nom.Ok None r) ->
+  r = i /\ ParseErrors.reported (Nom.errors st') (eq (ParseErrors.expect_diag m i)).
+Proof. exact @ParseErrProofs.expect_reports. Qed.
+Print Assumptions C04_expect_reported.
+
+(* All obligations of the tree at once. *)
+Theorem C04_parse_obligations_met : forall s toks ds,
+  Parser.parse s = Parser.Parsed toks ds -> Forall (ParseErrors.reported ds) (ParseErrors.Etoks toks).
+Proof. exact ParseErrProofs.parse_obligations_met. Qed.
+Print Assumptions C04_parse_obligations_met.
+
+(* "nop\n{\n%%\nnop": an error token inside a block that is never closed: both diagnostics are there *)
+Example C04_example_parse :
+  exists toks d1 d2, Parser.parse [110;111;112;10;123;10;37;37;10;110;111;112]%N = Parser.Parsed toks [d1; d2] /\
+    Nom.d_kind d1 = Nom.KUnexpected [37;37]%N /\ Nom.d_lo d1 = 6%N /\ Nom.d_hi d1 = 8%N /\
+    Nom.d_kind d2 = Nom.KExpect Nom.MClosing /\ Nom.d_lo d2 = 12%N.
+Proof. vm_compute. do 3 eexists. repeat split. Qed.
 
 (* non-vacuity: a pass function that is clean on its second call builds; one that always errs does not *)
 Example C04_example_done :
